@@ -175,7 +175,7 @@ pub fn check_state(subj: &LevelSubject, rcd: &Recorder, hist: &[u16], op: &Op, e
     let Some(level) = src.level_for_rebuild.as_ref() else {
         return out;
     };
-    let nperm = (1..=n).product::<usize>().max(1).min(24);
+    let nperm = (1..=n.min(8)).product::<usize>().max(1).min(24);
     let mut seen_listings: Vec<Vec<u128>> = vec![];
     for p in 0..nperm {
         set_listing_permutation(Some(p));
